@@ -54,6 +54,38 @@ var c19Bases = []string{"", "http://h", "https://h:8080", "https://h/a/b/fhir", 
 
 func c19Ptr(t resource.Type) string { return string(t) }
 
+// c19BaseClass: "plain" bases are absolute http(s) URLs without a trailing or doubled slash, query or fragment
+func c19BaseClass(b string) string {
+	switch {
+	case b == "":
+		return "none"
+	case !(strings.HasPrefix(b, "http://") || strings.HasPrefix(b, "https://")) || strings.ContainsAny(b, " ?#"):
+		return "odd"
+	case strings.HasSuffix(b, "/") || strings.Contains(b[8:], "//"):
+		return "redundant-slash"
+	}
+	return "plain"
+}
+
+func c19FormClass(src string) string {
+	switch {
+	case strings.HasPrefix(src, "#"):
+		return "fragment"
+	case strings.HasPrefix(src, "urn:"):
+		return "urn"
+	case strings.Contains(src, "/other/"):
+		return "non-rest-url"
+	case strings.Contains(src, "://"):
+		if strings.Contains(src, "_history") {
+			return "absolute-versioned"
+		}
+		return "absolute"
+	case strings.Contains(src, "_history"):
+		return "relative-versioned"
+	}
+	return "relative"
+}
+
 // info renders a LiteralInfo through its accessors only
 func c19Info(l *reference.LiteralInfo) string {
 	if l == nil {
@@ -425,6 +457,60 @@ func init() {
 								r.Fail("special-element|"+fmt.Sprintf("%q", f.s)+"|"+pi.Key(), core.W{"input": f.s, "panic": pi.Raw})
 							}
 							r.Eval()
+						}
+					}
+				}},
+				{Name: "literal-rebasing", N: len(types), Note: fmt.Sprintf("%d types x 9 source forms x 10 + 4 service base URLs: WithServiceBaseURL changes the base and nothing else, leaves the original alone, and the re-based literal formats to a string that parses back to the same components", len(types)), Run: func(i int, r *core.Rec) {
+					tn := string(types[i])
+					srcs := []string{tn + "/1", tn + "/1/_history/2", "https://h.example.org/fhir/" + tn + "/abc", "http://h/" + tn + "/a-b.c/_history/v-1.0", "#frag", "#", "urn:uuid:00000000-0000-0000-0000-000000000001", "urn:oid:1.2.3", "http://example.org/other/thing"}
+					bases := append(append([]string{}, c19Bases...), "https://other.example.org/r4", "ftp://h", "not a url", "http://h/fhir?x=1")
+					for _, src := range srcs {
+						l, err, pi := c19TryLit(src)
+						r.Eval()
+						if pi != nil || err != nil || l == nil {
+							continue // acceptance of the source forms is the business of the other sub-spaces
+						}
+						before := c19Info(l)
+						for _, b := range bases {
+							var l2 *reference.LiteralInfo
+							var werr error
+							pi := core.Try(func() { l2, werr = l.WithServiceBaseURL(b) })
+							r.Eval()
+							r.State("rebase|" + c19BaseClass(b))
+							r.Nontrivial(src, b, fmt.Sprint(werr == nil))
+							w := core.W{"source": src, "new_base": b, "before": before}
+							if pi != nil {
+								r.Fail("literal-rebasing|"+pi.Key(), w)
+								continue
+							}
+							if now := c19Info(l); now != before {
+								w["original_now"] = now
+								r.Fail("literal-rebasing|original-changed|"+c19FormClass(src), w)
+							}
+							if werr != nil || l2 == nil {
+								continue
+							}
+							got := c19Info(l2)
+							w["rebased"] = got
+							want := strings.Replace(before, "base="+l.ServiceBaseURL(), "base="+b, 1)
+							if got != want {
+								w["want"] = want
+								r.Fail("literal-rebasing|other-component-changed|"+c19FormClass(src), w)
+							}
+							if _, hasID := l2.Identity(); hasID && c19BaseClass(b) == "plain" {
+								back, perr, ppi := c19TryLit(l2.URIString())
+								r.Eval()
+								w["formatted"] = l2.URIString()
+								if ppi != nil {
+									r.Fail("literal-rebasing|"+ppi.Key(), w)
+								} else if perr != nil {
+									w["err"] = perr.Error()
+									r.Fail("literal-rebasing|formatted-form-rejected|"+c19FormClass(src), w)
+								} else if bi := c19Info(back); bi != got {
+									w["parsed_back"] = bi
+									r.Fail("literal-rebasing|format-parse-changes-components|"+c19FormClass(src), w)
+								}
+							}
 						}
 					}
 				}},
